@@ -6,7 +6,7 @@ META["C16"] = {
     "level": "exploration",
     "tiers": {
         "quick": {"shards": 8, "deadline_s": 120,
-                  "bounds": "all (total, world, rank) with total <= 4096, world <= 128; boundary lattice 2^k+-3 (k <= 63) x worlds {1..65, 2^j, 2^j+-1 (j <= 31)}; mpi_plain / mpi_vegas / mpi_multi_channel under the shim for world <= 12"},
+                  "bounds": "all (total, world, rank) with total <= 4096, world <= 128; boundary lattice 2^k+-3 (k <= 63) x worlds {1..65, 2^j, 2^j+-1 (j <= 31)}; mpi_plain / mpi_vegas / mpi_multi_channel under the shim for world <= 12, run on a sub-communicator whose ranks differ from the world ranks; mpi_plain's points in rank order against the serial stream"},
         "thorough": {"shards": 16, "deadline_s": 900,
                      "bounds": "all (total, world, rank) with total <= 100000, world <= 256; the same lattice; the three mpi_* integrators under the shim for world <= 33 and three numeric types"},
     },
@@ -68,7 +68,7 @@ META["C13"] = {
     "level": "exploration",
     "tiers": {
         "quick": {"shards": 3, "deadline_s": 200,
-                  "bounds": "all sequences of 0..3 results over (calls,E,S) in {2,10,1000}x{-3,-1e-3,0,1/2,1,1e6}x{1e-6,1e-3,0.1,1,10,1e3} plus the empty result and results with exactly one non-zero call (float: |E|<=1e3, S>=1e-3); all sequences of length 4 over the reduced alphabet {2,1000}x{-3,0,1,1e3}x{1e-3,1,1e3}+empty; every sequence also against its sorted permutation; 0..2 distributions (one 1-d with 2 bins, one 2-d with 2x2 bins); 3 types"},
+                  "bounds": "all sequences of 0..3 results over (calls,E,S) in {2,10,1000}x{-3,-1e-3,0,1/2,1,1e6}x{1e-6,1e-3,0.1,1,10,1e3} plus the empty result, results with exactly one non-zero call, with 3e9 calls (counter sums beyond 2^32) and with fewer finite than non-zero calls (float: |E|<=1e3, S>=1e-3); all sequences of length 4 over the reduced alphabet {2,1000}x{-3,0,1,1e3}x{1e-3,1,1e3}+empty; every sequence also against its sorted permutation; 0..2 distributions (one 1-d with 2 bins, one 2-d with 2x2 bins); 3 types"},
         "thorough": {"shards": 3, "deadline_s": 1500,
                      "bounds": "as quick plus length 5 over the reduced alphabet and length 4 over a medium alphabet (41 results)"},
     },
@@ -83,7 +83,7 @@ META["C14"] = {
     "level": "exploration",
     "tiers": {
         "quick": {"shards": 3, "deadline_s": 200,
-                  "bounds": "all sequences of length 1..7 over {+-1, +-h, +-2^12} (h = 2^-p (1+2^-10)); block sequences prefix (length <= 2) + k copies, k = 10..10^6 (10^5 for prefixes of length 2); nine named families with N = 1..10^6; integral with/without distributions, a single-bin distribution and two multi-bin distributions (3 and 2 bins fed interleaved subsequences); 3 types"},
+                  "bounds": "all sequences of length 1..7 over {+-1, +-h, +-2^12} (h = 2^-p (1+2^-10)); block sequences prefix (length <= 2) + k copies, k = 10..10^6 (10^5 for prefixes of length 2); eleven named families (two of them scaled to the bottom of the exponent range) with N = 1..10^6; integral with/without distributions, a single-bin distribution and two multi-bin distributions (3 and 2 bins fed interleaved subsequences); 3 types"},
         "thorough": {"shards": 3, "deadline_s": 1500,
                      "bounds": "as quick with sequences up to length 9, prefixes up to length 3, k and N up to 10^7"},
     },
@@ -177,7 +177,7 @@ META["C15"] = {
     "parts": 9,
     "tiers": {
         "quick": {"shards": 6, "parts_used": [0, 1, 2, 3, 4, 5], "deadline_s": 400,
-                  "bounds": "operations run(1), run(2), reload, rollback(k) for every k in 0..n+1; at most 4 iterations (calls 5,3,7,4); BFS to a fixed point on canonical states plus every history of depth <= 4 without state merging; PLAIN, VEGAS default / user grid, MULTI-CHANNEL default / user weights with a disabled channel / the same with one weight below the minimum weight; engines mt19937, minstd_rand, ranlux48, knuth_b; 3 types; built with _GLIBCXX_ASSERTIONS and the library's own asserts"},
+                  "bounds": "operations run(1), run(2), reload, rollback(k) for every k in 0..n+1 and k in {2^32, 2^32+n, 2^63+1}; at most 4 iterations (calls 5,3,7,4); BFS to a fixed point on canonical states plus every history of depth <= 4 without state merging; PLAIN, VEGAS default / user grid, MULTI-CHANNEL default / user weights with a disabled channel / the same with one weight below the minimum weight; engines mt19937, minstd_rand, ranlux48, knuth_b; 3 types; built with _GLIBCXX_ASSERTIONS and the library's own asserts"},
         "thorough": {"shards": 9, "deadline_s": 3000, "bounds": "as quick with histories of depth <= 5 and all nine standard engines"},
     },
     "rule": "explicit-state BFS over real checkpoint objects (copied, not replayed) with canonical state = serialised text + 'read back from text while holding results' flag, and a stateless DFS over all operation histories to the depth bound; distinct_nontrivial = distinct histories executed by the DFS; reference model = golden texts of the uninterrupted run",
@@ -209,7 +209,7 @@ META["C19"] = {
     "parts": 3,
     "tiers": {
         "quick": {"shards": 3, "deadline_s": 300,
-                  "bounds": "iteration counts 1..4 (calls [3],[2,4],[3,1,4],[2,3,2,4]); VEGAS d=2 with default grids of 2..5 bins and a user grid, alpha in {0,0.5,1.5}; MULTI-CHANNEL default / unnormalised user weights / user weights with a zero, beta in {1/4,1}, min in {0,0.05}; execution: uninterrupted, resumed from text before the first iteration and at every split point, MPI shim with P in {1,2,3}; 3 types"},
+                  "bounds": "iteration counts 1..4 (calls [3],[2,4],[3,1,4],[2,3,2,4]); VEGAS d=2 with default grids of 2..5 bins and a user grid, alpha in {0,0.5,1.5,4/3}; MULTI-CHANNEL default / unnormalised user weights / user weights with a zero, beta in {1/4,1}, min in {0,0.05}; execution: uninterrupted, resumed from text before the first iteration and at every split point, MPI shim with P in {1,2,3}; 3 types"},
         "thorough": {"shards": 3, "deadline_s": 900, "bounds": "as quick with 5 iterations (calls [2,1,3,2,4]) and 4 ranks"},
     },
     "rule": "every configuration x execution mode is run on the real integrators with a scripted engine and a logging integrand; states = results whose recorded state was checked against the points actually seen, transitions = refinement steps checked against the library's refine function applied to the recorded data; distinct_nontrivial = distinct cases with at least two iterations",
@@ -224,7 +224,7 @@ META["C12"] = {
     "parts": 3,
     "tiers": {
         "quick": {"shards": 3, "deadline_s": 300,
-                  "bounds": "A: every calls list of length 0..4 over {2,5} x user callback answering false at every position or never x start from an empty or a 2-result checkpoint x serial / MPI shim with 1..3 ranks (a third of the lists); B: built-in callback, 4 modes x targets {0,1e-3,0.05,0.3,1} and +-1% around every relative error the run actually reaches x integrands {0, 1, +-1 alternating, NaN, NaN sometimes, linear, narrow support (iterations without any hit)} x 5 iterations, serial and MPI shim with 2 ranks; PLAIN, VEGAS, MULTI-CHANNEL; 3 types"},
+                  "bounds": "A: every calls list of length 0..4 over {2,5,0} x user callback answering false at every position or never x start from an empty or a 2-result checkpoint x serial / MPI shim with 1..3 ranks (a third of the lists); B: built-in callback, 4 modes x targets {0,1e-3,0.05,0.3,1} and +-1% around every relative error the run actually reaches x integrands {0, 1, +-1 alternating, NaN, NaN sometimes, linear, narrow support (iterations without any hit)} x 5 iterations, serial and MPI shim with 2 ranks; PLAIN, VEGAS, MULTI-CHANNEL; 3 types"},
         "thorough": {"shards": 3, "deadline_s": 900, "bounds": "as quick with calls lists up to length 5 in part A"},
     },
     "rule": "every environment answer sequence of the callback (the position at which it says stop) is enumerated; states = runs judged, transitions = callback invocations judged; distinct_nontrivial = distinct cases with at least two requested iterations (A) plus all built-in cases (B)",
@@ -269,7 +269,7 @@ META["C20"] = {
     "parts": 3,
     "tiers": {
         "quick": {"shards": 3, "deadline_s": 400,
-                  "bounds": "4 callback modes x {PLAIN, VEGAS, MULTI-CHANNEL with 1,2,3,7,12,13,14,30 channels x 4 weight patterns (equal, all but one at the floor, alternating disabled, increasing)} x integrands {0, 1, NaN sometimes, linear} x targets {0, 0.12} x 3 iterations; MPI shim with 3 ranks x 4 modes; multi_channel_summary directly for 1..14 and 30 channels x weight patterns (equal, one dominant, k disabled, increasing/decreasing, two groups, one huge) x calls {0,1,1000,10^6}; 3 types; ASan+UBSan+_GLIBCXX_ASSERTIONS, 60 s limit per case"},
+                  "bounds": "4 callback modes x {PLAIN, VEGAS, MULTI-CHANNEL with 1,2,3,7,12,13,14,30 channels x 4 weight patterns (equal, all but one at the floor, alternating disabled, increasing)} x integrands {0, 1, NaN sometimes, linear} x targets {0, 0.12} x 3 iterations; MPI shim with 3 ranks x 4 modes x targets {0, 0.12}; multi_channel_summary directly for 1..14 and 30 channels x weight patterns (equal, one dominant, k disabled, increasing/decreasing, two groups, one huge) x calls {0,1,1000,10^6}; 3 types; ASan+UBSan+_GLIBCXX_ASSERTIONS, 60 s limit per case"},
         "thorough": {"shards": 3, "deadline_s": 900, "bounds": "same as quick (the enumeration is complete at this bound)"},
     },
     "rule": "full product of configurations; each configuration is run once per mode and the modes are compared with the silent run (final text and the text handed to every callback invocation); distinct = distinct configurations; non-trivial = every configuration",
@@ -284,7 +284,7 @@ META["C04"] = {
     "parts": 6,
     "tiers": {
         "quick": {"shards": 6, "deadline_s": 500,
-                  "bounds": "mpi_plain / mpi_vegas / mpi_multi_channel (user weights with a disabled channel; plus, for a subset, one random number mapped to three coordinates and a single-channel integrand) x calls lists [0],[1],[2],[3],[5],[7,3],[4,4,4],[2,0,5],[1,1,1,1],[33],[64,31] x {dyadic integrand (exact sums), smooth integrand, smooth integrand with non-finite values in some cells} x {no distribution, two distributions (1-d with 3 bins, 2-d with 2x2)} x {no target (silent callback), target 0.35 (verbose callback)}; worlds 1,2,3 with every reduction order of every collective (P! left folds + tree, pruned by distinct reduced bytes); worlds 4,5,8,16,33 with ascending / descending / tree order; engines script, mt19937, ranlux24, minstd_rand; 3 types"},
+                  "bounds": "mpi_plain / mpi_vegas / mpi_multi_channel (user weights with a disabled channel; plus, for a subset, one random number mapped to three coordinates and a single-channel integrand) x calls lists [0],[1],[2],[3],[5],[7,3],[4,4,4],[2,0,5],[1,1,1,1],[33],[64,31] x {dyadic integrand (exact sums), smooth integrand, smooth integrand with non-finite values in some cells} x {no distribution, two distributions (1-d with 3 bins, 2-d with 2x2)} x {no target (silent callback), target 0.35 (verbose callback)}; half of the configurations on a sub-communicator whose ranks differ from the world ranks; worlds 1,2,3 with every reduction order of every collective (P! left folds + tree, pruned by distinct reduced bytes); worlds 4,5,8,16,33 with ascending / descending / tree order; engines script, mt19937, ranlux24, minstd_rand; 3 types"},
         "thorough": {"shards": 6, "deadline_s": 3000, "bounds": "as quick with every reduction order also for 4 ranks and every world size 5..33 in the three canonical orders"},
     },
     "rule": "stateless exploration of the MPI environment's choices: for each collective the environment chooses the order in which the ranks' contributions are combined; ranks are deterministic functions of the results received, so orders with identical reduced bytes have identical futures and one representative is continued; states = complete executions checked, transitions = rank-set executions (one per explored prefix); traces_validated_against_impl = complete executions whose per-rank logs were compared with the serial iteration of the tree under test",
@@ -300,7 +300,7 @@ META["C18"] = {
     "level": "fault_enumeration",
     "tiers": {
         "quick": {"shards": 3, "deadline_s": 400,
-                  "bounds": "PLAIN (about 300 byte checkpoints), VEGAS 128 bins x 4 dimensions (about 13 kB per result, several write calls per checkpoint), MULTI-CHANNEL 30 channels; 3 iterations; silent_and_write_chkpt and verbose_and_write_chkpt; file absent or holding an older (empty) checkpoint, with and without a partial temporary file left behind by an earlier killed run; every position in the operation log and every byte prefix of every write; real-kill validation at every log position with byte prefixes {0, 1, middle, last}; 3 types"},
+                  "bounds": "PLAIN (about 300 byte checkpoints), VEGAS 128 bins x 4 dimensions (about 13 kB per result, several write calls per checkpoint), MULTI-CHANNEL 30 channels; 3 iterations; silent_and_write_chkpt and verbose_and_write_chkpt; file absent or holding an older (empty) checkpoint, with and without a partial temporary file left behind by an earlier killed run, and with the first or second rename of the run failing (injected ENAMETOOLONG); every position in the operation log and every byte prefix of every write; real-kill validation at every log position with byte prefixes {0, 1, middle, last}; 3 types"},
         "thorough": {"shards": 3, "deadline_s": 1800, "bounds": "as quick with real-kill validation at every 97th byte of every write"},
     },
     "rule": "fault enumeration over crash points: (operation index, bytes of the write in flight); byte prefixes of a write to a file other than the checkpoint file leave the checkpoint file unchanged and are counted once per operation; distinct = distinct crash points whose checkpoint-file content was judged; non-trivial = every crash point",
